@@ -55,7 +55,7 @@ def hostile_docs(rng, prog, kind, h, ct, others):
     return out
 
 
-def check_prog(ctx, r, prog, n_values):
+def check_prog(ctx, r, prog, n_values, skip_classes=()):
     rng = ctx.rng("c03", prog["name"])
     canon = Canon(r, prog)
     pn = prog["name"]
@@ -78,7 +78,7 @@ def check_prog(ctx, r, prog, n_values):
             for _ in range(n_values):
                 texts = draw_args(rng, prog, h)
                 ct = canon_args(canon, prog, h, texts)
-                docs += [(h, c, d) for c, d in hostile_docs(rng, prog, kind, h, ct, pool)]
+                docs += [(h, c, d) for c, d in hostile_docs(rng, prog, kind, h, ct, pool) if c not in skip_classes]
         if not hs:
             # a contract-level message with no handler at all still has to reject everything
             docs = [(None, "no-handlers", d) for d in ["{}", "{\"x\":{}}", "null", "7"]]
